@@ -391,7 +391,10 @@ Fixpoint oracle_go (lv cs ld orph pcb stale pend : list nat) (tr : list obs) : N
           | [] => oracle_go [i] cs ld orph pcb stale pend r
           | _ => if forallb (fun j => mem_nat j orph) lv then 4%N else 2%N
           end
-      | LCancelled i => oracle_go (rm i lv) cs ld (rm i orph) (i :: pcb) stale pend r
+      | LCancelled i =>
+          (* an instance that had lost its map entry (orphan) and is torn down now: its own callback,
+             still to come, removes a successor's entry - it is displaced *)
+          oracle_go (rm i lv) cs ld (rm i orph) (i :: pcb) (if mem_nat i orph then i :: stale else stale) pend r
       | LCloseBegin i => oracle_go lv (i :: cs) ld orph pcb stale pend r
       | LDBegin i => oracle_go lv cs (if mem_nat i cs then i :: ld else ld) orph pcb stale pend r
       | LCbStart i =>
